@@ -5,7 +5,7 @@ import z3
 from sx import core as S, env as E, npshim, mat
 
 PROPERTY = "C12"
-REGIONS = ["coefficient-with-inexact-reciprocal", "queries-after-tighten", "bound-tightened", "crossed-bounds", "coef-magnitude>1-positive", "coef-magnitude>1-negative", "zero-coef", "symbolic-box", "negative-lower-bound"]
+REGIONS = ["constant-column-variable-plain", "coefficient-with-inexact-reciprocal", "queries-after-tighten", "bound-tightened", "crossed-bounds", "coef-magnitude>1-positive", "coef-magnitude>1-negative", "zero-coef", "symbolic-box", "negative-lower-bound"]
 BOUNDS = ("coefficient matrices up to 3x3 with entries in {-3..3} (curated + seeded; concrete because coefficient x bound products must stay linear); "
           "right-hand sides b symbolic |b|<=2^17; variable boxes symbolic inside [-32768,32767] (families: all boolean, one symbolic column, "
           "mixed, all symbolic); a symbolic in-box point x")
@@ -38,6 +38,14 @@ def instantiations(tier, seed):
         if k % 2 == 0 or tier == "thorough":
             # the same queries AFTER tighten_column_bounds() was called on the same object (the accessors must keep describing the declared box)
             out.append({"A": A, "boxes": mat.boxes_for("onesym", nc, rng), "part": "rows", "after_tighten": True})
+    # plain (0,1) variable on the constant column, with exactly one / two / no integer columns among the rest
+    for k, A in enumerate([a for a in mat.CURATED_A if len(a[0]) >= 2][: (6 if tier == "quick" else 12)]):
+        nc = len(A[0])
+        bx = [[0, 1]] * nc
+        for j in range(k % 3):
+            bx = bx[:j] + [[[0, 5], [-3, 2], "sym"][(k + j) % 3]] + bx[j + 1:]
+        out.append({"A": A, "boxes": bx, "part": "rows", "first": "plain01"})
+        out.append({"A": A, "boxes": bx, "part": "tighten", "first": "plain01", "warm": k % 2 == 0})
     for A in mat.BIG_A:
         nc = len(A[0])
         out.append({"A": A, "boxes": [[0, 1]] * nc if nc == 1 else ["sym"] + [[0, 1]] * (nc - 1), "part": "tighten", "bigcoef": True})
@@ -64,7 +72,10 @@ def setup(ctx, ns, spec):
     for x, l, u in zip(xs, los, his):
         ctx.assume(z3.And(x.e >= l.e, x.e <= u.e))
     M = npshim.obj_matrix([[b[i]] + A[i] for i in range(nr)])
-    vs = [ns.puan.variable(0, bounds=(1, 1))] + [ns.puan.variable("v%d" % j, bounds=(los[j], his[j])) for j in range(nc)]
+    # the constant column's own variable: the library's default (id 0, fixed to 1) or, as in the library's own documentation examples, a plain
+    # variable("0") with (0,1) bounds; its bounds play no role in the statement (b is a constant)
+    first = ns.puan.variable("0") if spec.get("first") == "plain01" else ns.puan.variable(0, bounds=(1, 1))
+    vs = [first] + [ns.puan.variable("v%d" % j, bounds=(los[j], his[j])) for j in range(nc)]
     P = ns.pnd.ge_polyhedron(M, variables=vs)
     return A, b, los, his, xs, P
 
@@ -130,6 +141,8 @@ def run_inst(spec, run):
                 return
             if any(bx == "sym" for bx in spec["boxes"]):
                 run.region("symbolic-box")
+            if spec.get("first") == "plain01":
+                run.region("constant-column-variable-plain")
             flat = [v for row in A for v in row]
             if any(v > 1 for v in flat):
                 run.region("coef-magnitude>1-positive")
